@@ -835,6 +835,18 @@ async def _execute(loop, program, observe=None):
                     req.subscribe(sub)
                 except Exception as e:
                     world.ev(scn.st[uid]['spec']['side'], 'issue_raised', uid=uid, exc=repr(e), exc_type=type(e).__name__)
+        elif name == 'abandon':
+            # the application drops a publisher it obtained from request_stream() without ever subscribing to it: cancel()
+            uid = started_uid(op[1])
+            if uid is not None and scn.st[uid].get('deferred'):
+                req, _sub = scn.st[uid].pop('deferred')
+                side_ = scn.st[uid]['spec']['side']
+                world.ev(side_, 'abandon', uid=uid)
+                scn.st[uid]['abandoned'] = True
+                try:
+                    req.cancel()
+                except Exception as e:
+                    world.ev(side_, 'abandon_raised', uid=uid, exc=repr(e), exc_type=type(e).__name__)
         elif name == 'block':
             conn.block(op[1])
         elif name == 'unblock':
